@@ -249,11 +249,12 @@ func (r *Rec) Items(give, ref *workflow.Plan) int {
 	var raw [][]byte
 	var err error
 	r.guard("VerifPlanItems", func() { raw, _, err = cosmosdb.VerifPlanItems(give) })
+	NormPlan(ref)
 	if err != nil {
-		r.Notes = append(r.Notes, "panic-class: VerifPlanItems failed on a storable plan: "+err.Error())
+		// the implementation refuses the plan: recorded as "no items"; the model must refuse it too
+		r.guard("abstraction of items", func() { r.items = append(r.items, core.Pair(r.Cx.Plan(ref), "[]")) })
 		return 0
 	}
-	NormPlan(ref)
 	var xs []string
 	r.guard("abstraction of items", func() {
 		for _, it := range raw {
